@@ -1246,3 +1246,27 @@ impl RwsDisp for std::io::Error {
     #[verifier::external_body]
     fn rws_disp(&self) -> String { self.to_string() }
 }
+
+// Vec::remove / String::remove (R-SHIM renames both; the Vec version is a verified wrapper of vstd's specification)
+pub trait RwsRemove {
+    type Item;
+    spec fn rm_len(&self) -> nat;
+    fn rws_remove(&mut self, i: usize) -> (r: Self::Item)
+        requires i < old(self).rm_len();
+}
+impl<T> RwsRemove for Vec<T> {
+    type Item = T;
+    open spec fn rm_len(&self) -> nat { self@.len() }
+    fn rws_remove(&mut self, i: usize) -> (r: T)
+        ensures final(self)@ == old(self)@.remove(i as int), r == old(self)@[i as int],
+    { self.remove(i) }
+}
+impl RwsRemove for String {
+    type Item = char;
+    // String::remove(byte index) panics unless the index is a character boundary inside the string: only index 0 of a non-empty string is offered
+    open spec fn rm_len(&self) -> nat { if self@.len() > 0 { 1 } else { 0 } }
+    #[verifier::external_body]
+    fn rws_remove(&mut self, i: usize) -> (r: char)
+        ensures final(self)@ == old(self)@.subrange(1, old(self)@.len() as int), r == old(self)@[0],
+    { self.remove(i) }
+}
